@@ -11,6 +11,8 @@ register("C14",
          "In addition the property oracle alone (independent Kuhn matching + exact minimum cover by enumeration, no model evaluation) judges the code on every edge "
          "set of the rectangular shapes 1x4, 2x4, 3x4, 2x5 and their transposes (quick) / 2x5, 2x6, 3x5 and transposes (thorough) and on random graphs up to 14x20, "
          "and on sparse graphs with very many (almost all isolated) vertices on one side, vertex indices up to 2^17 (quick) / 2^20 (thorough), whose edge "
-         "lists contain entries that would alias one another under packed, truncated or concatenated edge keys (radix 2^k, 10^k, arbitrary).",
+         "lists contain entries that would alias one another under packed, truncated or concatenated edge keys (radix 2^k, 10^k, arbitrary), "
+         "and on long ladder graphs (65..900 rungs, renumbered / reordered variants) whose Koenig exploration is one serial alternating path through all "
+         "matched pairs, run under the default recursion limit (reference matching by a non-recursive search).",
          "Trusted: Coq kernel, vm_compute, harness; the hand-written model corresponds to the Python code only as far as the differential runs show (not a theorem). "
          "No per-instance obligations are needed: the size equality is proved for all inputs.")
